@@ -216,6 +216,15 @@ def facts_at(fn, fi, node, stop_at=None):
             out.append((e, pol))
     for cond, pol in fi.guards(node, stop_at=stop_at):
         split(expand(fn, cond), pol)
+    # a node under a `case` of a switch runs under a condition that is not modelled: say so with a pseudo atom, so that rules that
+    # require "no other condition" or look for a dominating test can answer *not decided* instead of guessing
+    for p, slot, ch in fi.ancestors(node):
+        if stop_at is not None and p is stop_at:
+            break
+        if p.get("k") == "SwitchStmt" and slot == "body":
+            out.append(({"k": "<switch-case>", "l": p.get("l"), "c": []}, True))
+        if p.get("k") == "LambdaExpr":
+            break
     return out
 
 
